@@ -416,6 +416,10 @@ def find_min_chain(W, f):
     for t in f.calls():
         if t.callee.indirect is None and last_seg(t.callee.best) == 'min' and len(t.args) == 1:
             out.append(t)
+        # `.fold(i32::MAX, std::cmp::min)` -- the same reduction with the neutral element of min as the seed (any other seed takes part in the minimum)
+        if t.callee.indirect is None and last_seg(t.callee.best) == 'fold' and len(t.args) == 3 and (t.args[2].fn_path() or '').endswith('cmp::min') and \
+                t.args[1].const_int() in (2147483647, 9223372036854775807, 32767):
+            out.append(t)
     return out
 
 
